@@ -1,5 +1,5 @@
 (** C12 — conflicting functions are ordered by logic rank, then insertion order. *)
-From FG Require Import Dag Builder DagFacts EdgeFacts RankFacts BuilderFacts TopoFacts AugFacts BuildFacts.
+From FG Require Import Dag Builder DagFacts EdgeFacts RankFacts BuilderFacts TopoFacts AugFacts AugNR BuildFacts.
 
 (** Tie-break: in the built graph every edge goes forward in the lexicographic order
     (rank, insertion index), and every conflicting pair is joined by a path from the
@@ -27,6 +27,27 @@ Proof.
   destruct (Hfwd j i Hq) as [->|Hji]; [exact (lexlt_irrefl _ _ Hlt) | exact (lexlt_asym _ _ _ Hlt Hji)].
 Qed.
 Print Assumptions C12_tie_break.
+
+(** No Data edge repeats an ordering already implied by other edges: removing any Data edge of
+    the built graph disconnects its endpoints. *)
+Theorem C12_data_edge_nonredundant : forall ops G pops queries a b,
+  build (builder_run ops) = BOk G pops queries ->
+  In (a, b, Data) (fg_edges G) -> ~ Path (rm_pair (fg_edges G) a b) a b.
+Proof.
+  intros ops G pops queries a b Hb Hin.
+  set (B := builder_run ops) in *.
+  destruct (rank_calc_correct_and_bounded (ncount B) (edges B) (builder_wf ops)) as [rk [p [Hrc [Hlen [Hlong Hpops]]]]].
+  assert (Hstrict : forall u v, Edge (edges B) u v -> rk_at rk u < rk_at rk v).
+  { intros u v He. destruct (Edge_wf _ _ _ _ (proj1 (builder_wf ops)) He) as [Hu Hv].
+    destruct (Hlong u Hu) as [Hc _]. destruct (Hlong v Hv) as [_ Hmax].
+    specialize (Hmax (S (rk_at rk u)) (Chain_S _ _ _ _ Hc He)). unfold rk_at in *. lia. }
+  unfold build in Hb. fold B in Hrc. rewrite Hrc in Hb.
+  destruct (a_panic (augment B rk)) eqn:Hp; [discriminate|].
+  destruct (copy_struct _ _ _ _) as [[st str]|]; [|discriminate].
+  inversion Hb; subst G. simpl in *.
+  exact (augment_nonredundant B (builder_wf ops) (builder_no_data ops) rk Hstrict a b Hin).
+Qed.
+Print Assumptions C12_data_edge_nonredundant.
 
 (** `==` on built graphs is exactly equality of functions and raw edge lists. *)
 Theorem C12_eq_iff : forall G1 G2,
